@@ -464,7 +464,7 @@ func c16Finish(c *engine.Ctx, cov map[string]interface{}) string {
 func init() {
 	register(&engine.Check{
 		ID: "C16", Level: "exploration",
-		Rule: "all strings ≤7 over {+ - . 0 9 e E a % x} for Number/Dimension vs the documented regexp (longest match); all 256 bytes and all strings over two alphabets for EncodeURL (both tables, three capacities) and DecodeURL (inverse on every encoded string; equals url.QueryUnescape wherever that succeeds); DataURI on every payload ≤3 bytes over 10 byte values × {base64, spaced base64, percent} × 5 media types and on all strings ≤5 atoms over data-URI fragments; Mediatype on all strings ≤7 atoms vs mime.ParseMediaType where that succeeds; EqualFold/ToLower/TrimWhitespace/IsAllWhitespace/IsWhitespace/IsNewline on all bytes and all strings ≤4 over 15 atoms; css/html ToHash on every constant (read from the current source), its case variants, every single-edit neighbour and all strings ≤4 over the table's letters vs a plain map",
+		Rule:        "all strings ≤7 over {+ - . 0 9 e E a % x} for Number/Dimension vs the documented regexp (longest match); all 256 bytes and all strings over two alphabets for EncodeURL (both tables, three capacities) and DecodeURL (inverse on every encoded string; equals url.QueryUnescape wherever that succeeds); DataURI on every payload ≤3 bytes over 10 byte values × {base64, spaced base64, percent} × 5 media types and on all strings ≤5 atoms over data-URI fragments; Mediatype on all strings ≤7 atoms vs mime.ParseMediaType where that succeeds; EqualFold/ToLower/TrimWhitespace/IsAllWhitespace/IsWhitespace/IsNewline on all bytes and all strings ≤4 over 15 atoms; css/html ToHash on every constant (read from the current source), its case variants, every single-edit neighbour and all strings ≤4 over the table's letters vs a plain map",
 		Assumptions: []string{"percent-encoding of data URI payloads encodes every byte outside the unreserved set", "media types starting with ';' (parameters only) are not generated"},
 		Setup:       c16Setup, Work: c16Work, Finish: c16Finish,
 	})
